@@ -85,6 +85,7 @@ class Model:
 
             try:
                 self.random = random.Random(rng)
+                seed = rng  # what stdlib.random was seeded with
             except TypeError:
                 seed = int(self.rng.integers(np.iinfo(np.int32).max))
                 self.random = random.Random(seed)
